@@ -16,6 +16,10 @@ CATEGORIES = {
     "Shaped": FLOAT_DTYPES + INT_DTYPES + ("bool",),
     "Num": FLOAT_DTYPES + INT_DTYPES,
     "Bool": ("bool",),
+    # two numpy structured dtypes with their own categories (jaxtyping.make_numpy_struct_dtype): both have scalar type
+    # np.void, so anything keyed by the scalar type alone confuses them
+    "Struct1": ("struct1",),
+    "Struct2": ("struct2",),
 }
 ALL_DTYPES = FLOAT_DTYPES + INT_DTYPES + ("bool",)
 
